@@ -135,14 +135,6 @@ def mapping? (j : Json) : Option (Mapping Nat) := do
   let a ← getArr? j
   a.toList.mapM node?
 
-def castNode : Node Nat → Node Rat
-  | .storage l ts lo => .storage l ts lo
-  | .toll l ts lo => .toll l ts lo
-  | .loop rv tile => .loop rv (tile : Rat)
-  | .compute => .compute
-
-def castMapping (m : Mapping Nat) : Mapping Rat := m.map castNode
-
 def quad (x : Lvl × TId × Rat × Rat) : Json :=
   Json.arr #[ofNat x.1, ofNat x.2.1, ofRat x.2.2.1, ofRat x.2.2.2]
 
@@ -178,5 +170,18 @@ def execJson (r : AFV.NestExec.ExecResult) : Json :=
     ("dynamicEnergy", ofRat r.dynamicEnergy),
     ("leakEnergy", ofRat r.leakEnergy),
     ("totalEnergy", ofRat r.totalEnergy)]
+
+/-- `{"arch":…,"workload":…,"mapping":…}` → `{"analytic": result|null, "oversubscribed": bool|null, "wf": bool, "exec": result}` -/
+def evalReply (req : Json) : Json :=
+  match (field? req "arch").bind arch?, (field? req "workload").bind workload?, (field? req "mapping").bind mapping? with
+  | some arch, some (wq, wn), some m =>
+    let an := analytic arch wq (castMapping m)
+    let ex := AFV.NestExec.exec arch wq wn m
+    Json.mkObj [
+      ("analytic", match an with | some r => resultJson r | none => Json.null),
+      ("oversubscribed", match an with | some r => Json.bool (r.oversubscribed arch) | none => Json.null),
+      ("wf", Json.bool (WF arch wn m)),
+      ("exec", execJson ex)]
+  | _, _, _ => err "malformed"
 
 end AFV.Driver.NestJson
